@@ -390,6 +390,12 @@ class UserManager(BaseManager):
 
         user.status = UserStatus(message.status)
         user.privileged = message.privileged
+        # Users are weakly held: remember the flag for when the object is
+        # created again
+        if message.privileged:
+            self._privileged_users.add(message.username)
+        else:
+            self._privileged_users.discard(message.username)
 
         await self._event_bus.emit(
             UserStatusUpdateEvent(
